@@ -125,6 +125,16 @@ flag :: true;
 flags :: bool.[flag, false, flag];
 main :: () -> i32 { v := i32.(words[0]) + i32.(words[1]); if flags[2] { v } else { %(c)d } }
 """),
+    # several `type` values inside one comptime aggregate (their ids are written when the result
+    # is read, in the order of the recorded offsets)
+    ("type_table", """
+Sa :: struct { a: i32 };
+Sb :: struct { b: i64, c: u8 };
+Sc :: struct { d: [2]u16 };
+Row :: struct { t: type, n: i32 };
+schema :: comptime { Row.[Row.{ t = Sb, n = %(a)d }, Row.{ t = Sc, n = %(b)d }, Row.{ t = Sa, n = %(c)d }, Row.{ t = [3]Sa, n = 4 }] };
+main :: () -> i32 { n : i32 = 0; if schema[0].t == Sb { n = n + 1; } if schema[2].t == Sa { n = n + 2; } n + schema[1].n }
+"""),
     ("tuple_like", """
 Pair :: struct { k: u8, v: [3]u16, last: u8 };
 mk :: (n: u16) -> Pair { Pair.{ k = %(c)d, v = u16.[n, n + 1, n + 2], last = 7 } }
